@@ -770,6 +770,16 @@ func (parser *Parser) ParseInfix(depth int) (Sexp, error) {
 			break
 		}
 
+		if tok.typ == TokenSymbol && (tok.str == "-" || tok.str == "+") &&
+			len(arr) > 0 && !parser.isInfixOperator(arr[len(arr)-1]) {
+			// after an operand of an infix expression a sign is
+			// the operator: {x = 5 - Inf} subtracts. Do not let
+			// ParseExpression fuse it with a following Inf.
+			_, _ = lexer.GetNextToken()
+			arr = append(arr, parser.env.MakeSymbol(tok.str))
+			continue
+		}
+
 		//Q("debug: ParseInfix(depth=%v) calling ParseExpression", depth)
 		expr, err := parser.ParseExpression(depth + 1)
 		if err != nil {
@@ -788,6 +798,19 @@ func (parser *Parser) ParseInfix(depth int) (Sexp, error) {
 	}
 	return &list, nil
 	//return &SexpArray{Val: arr, Infix: true, Env: env}, nil
+}
+
+// isInfixOperator reports whether x, an element of an infix
+// expression, is an operator or a separator rather than an operand.
+func (parser *Parser) isInfixOperator(x Sexp) bool {
+	switch t := x.(type) {
+	case *SexpSymbol:
+		_, isOp := parser.env.infixOps[t.name]
+		return isOp
+	case *SexpComma, *SexpSemicolon:
+		return true
+	}
+	return false
 }
 
 func (parser *Parser) Linenum() int {
